@@ -73,6 +73,15 @@ contract("new:Scenario", trusted=True,
          doc="Scenario.__init__ stores its arguments (A: constructor; the tags/steps lists are stored, not copied)")
 shape("Scenario", feature="any", _row="any", parent="opt:ref:TagAndStatusStatement")
 contract("abs:BasicStatement.line", trusted=True, params={"self": "ref:BasicStatement"}, pure=True, result="any", doc="location.line")
+oracle("n_row_tags", ["val", "val", "val"], "int")
+oracle("row_tag_at", ["val", "val", "val", "int"], "val:str")
+contract("abs:make_row_tags", trusted=True, pos_params=["self", "outline_tags", "row", "params"], defaults={"params": None},
+         fresh_result="list",
+         ensures={"the-row-tags-of-these-outline-tags-for-this-row-and-these-parameters":
+                  "len(result) == n_row_tags(outline_tags, row, params) and n_row_tags(outline_tags, row, params) >= 0 and "
+                  "forall(lambda j: implies(0 <= j < len(result), result[j] == row_tag_at(outline_tags, row, params, j)))"},
+         doc="call-site view of make_row_tags in make_scenario_for: a new list that is a function of (outline tags, row, parameters); "
+             "what that function is, is the proved contract of ScenarioOutlineBuilder.make_row_tags above")
 TPL = "scenario_template"
 contract(M + "ScenarioOutlineBuilder.make_scenario_for", props=P,
          params={"self": "ref:ScenarioOutlineBuilder", "example": "ref:Examples", "row": "ref:Row",
@@ -81,7 +90,7 @@ contract(M + "ScenarioOutlineBuilder.make_scenario_for", props=P,
          callsites={"self.make_step_for_row": "abs:ScenarioOutlineBuilder.make_step_for_row",
                     "self.make_scenario_name": "abs:ScenarioOutlineBuilder.make_scenario_name",
                     "self.has_parametrized_steps": "abs:ScenarioOutlineBuilder.has_parametrized_steps",
-                    "Scenario": "new:Scenario"},
+                    "self.make_row_tags": "abs:make_row_tags", "Scenario": "new:Scenario"},
          modifies=["dict(params)", "*.status", "*.hook_failed", "*.duration", "*.exception", "*.exc_traceback",
                    "*.error_message", "*.captured", "*._background_steps", "*._inherited_steps"],
          loops=[Loop(invariant={"bg": "len(background_steps) == _i"}),
@@ -100,9 +109,9 @@ contract(M + "ScenarioOutlineBuilder.make_scenario_for", props=P,
                  "len(result.tags) >= len(example.tags) and forall(lambda k: implies(0 <= k < len(example.tags), "
                  "result.tags[len(result.tags) - len(example.tags) + k] == example.tags[k]))",
              "tags-before-them-are-the-outline's-tags-rendered-with-this-row-and-the-builder-parameters":
-                 "forall(lambda j: implies(0 <= j < len(result.tags) - len(example.tags), exists(lambda k: 0 <= k < len(scenario_template.tags) and "
-                 "not ptag(row_tag_src(scenario_template.tags[k], row, params)) and "
-                 "result.tags[j] == tag_name(row_tag_src(scenario_template.tags[k], row, params)))))",
+                 "len(result.tags) == n_row_tags(scenario_template.tags, row, params) + len(example.tags) and "
+                 "forall(lambda j: implies(0 <= j < n_row_tags(scenario_template.tags, row, params), "
+                 "result.tags[j] == row_tag_at(scenario_template.tags, row, params, j)))",
              "the-template-keeps-its-steps-and-tags":
                  "len(scenario_template.steps) == old(len(scenario_template.steps)) and len(scenario_template.tags) == old(len(scenario_template.tags))",
          })
